@@ -16,7 +16,9 @@ CONSTANTS NK, Emit, StaleGuard   \* StaleGuard: an #undef'd guard still counts a
 
 Keys == 1..NK
 G == 3                              \* value a header gives to its guard
-Ops == { <<"def", k, v>> : k \in Keys, v \in {1, 2} } \cup { <<"undef", k, 0>> : k \in Keys }
+(* values: 1, 2 object-like bodies; 3 = G; 4, 5, 6 function-like definitions that differ only in the NAMES /
+   ORDER of their parameters or in the body: 4 = K(a,b) a - b, 5 = K(b,a) a - b, 6 = K(a,b) b - a *)
+Ops == { <<"def", k, v>> : k \in Keys, v \in {1, 2, 4, 5, 6} } \cup { <<"undef", k, 0>> : k \in Keys }
          \cup { <<"inc", k, 0>> : k \in Keys }
 
 OpsSeq == SetToSeq(Ops)
